@@ -3,7 +3,7 @@
 Monitored: every request the redirect agent issues to the inner agent (method, URI, headers) and
 the final result of the outer Deferred.  Oracle, evaluated hop by hop on the *recorded* requests:
 request k (k >= 1) must target RFC 3986 5.2 resolution of Location(k-1) against the URI of request
-k-1 (own resolver, cross-checked with urllib's urljoin; hyperlink only recorded); at most
+k-1 (own resolver, cross-checked with urllib's urljoin); at most
 redirectLimit follows; method rules as documented; sensitive headers absent on every request whose
 origin (scheme, host, effective port) differs from the original request's origin.
 
